@@ -321,8 +321,8 @@ theorem members_noslash {k : AddrKind} {ms : List BridgeValidator}
   · exact (isExtAddr_alnum (h m hm)).ne '/' (by decide) c hc
   · decide
 
-theorem joinSp_members_inj {k : AddrKind} : ∀ {ms ns : List BridgeValidator},
-    (∀ m ∈ ms, isExtAddr k m.ExternalAddress = true) → (∀ m ∈ ns, isExtAddr k m.ExternalAddress = true) →
+theorem joinSp_members_inj {k k' : AddrKind} : ∀ {ms ns : List BridgeValidator},
+    (∀ m ∈ ms, isExtAddr k m.ExternalAddress = true) → (∀ m ∈ ns, isExtAddr k' m.ExternalAddress = true) →
     joinSp (ms.map fmtMember) = joinSp (ns.map fmtMember) → ms = ns
   | [], [], _, _, _ => rfl
   | [], n :: ns, _, _, h => by
@@ -359,18 +359,55 @@ theorem joinSp_members_inj {k : AddrKind} : ∀ {ms ns : List BridgeValidator},
         (fun x hx => hn x (by simp only [List.mem_cons] at hx ⊢; exact Or.inr hx)) rest
       rw [hmn, ih]
 
-theorem fmtMembers_inj {k : AddrKind} {ms ns : List BridgeValidator}
-    (hm : ∀ m ∈ ms, isExtAddr k m.ExternalAddress = true) (hn : ∀ m ∈ ns, isExtAddr k m.ExternalAddress = true)
+theorem fmtMembers_inj {k k' : AddrKind} {ms ns : List BridgeValidator}
+    (hm : ∀ m ∈ ms, isExtAddr k m.ExternalAddress = true) (hn : ∀ m ∈ ns, isExtAddr k' m.ExternalAddress = true)
     (h : fmtSlice (ms.map fmtMember) = fmtSlice (ns.map fmtMember)) : ms = ns := by
   simp only [fmtSlice, List.cons_append, List.cons.injEq, true_and] at h
   exact joinSp_members_inj hm hn (List.append_cancel_right h)
 
 /-! ## decimal number immediately followed by a fixed-width address (`%d%s`) -/
 
-theorem nat_addr_split {k : AddrKind} {m n : Nat} {a b : Str} (ha : isExtAddr k a = true) (hb : isExtAddr k b = true)
+theorem x_not_in_fmtNat (n : Nat) : 'x' ∉ fmtNat n := fun h => absurd (fmtNat_digits n _ h) (by decide)
+
+/-- a number followed by a 0x-address never reads as a (longer) number followed by a base58 address: the `x` would
+have to be a digit -/
+theorem nat_eth_ne_nat_tron {m n : Nat} {a b : Str} (ha : isEthAddr a = true) (hb : isTronAddr b = true) :
+    fmtNat m ++ a ≠ fmtNat n ++ b := by
+  intro h
+  have la := isEthAddr_length ha
+  have lb := isTronAddr_length hb
+  have hl := congrArg List.length h
+  simp only [List.length_append, la, lb] at hl
+  simp only [isEthAddr, Bool.and_eq_true, beq_iff_eq] at ha
+  have ea : a = '0' :: 'x' :: a.drop 2 := by
+    have := List.take_append_drop 2 a
+    rw [ha.1.2] at this
+    exact this.symm
+  rw [ea] at h
+  have h' : (fmtNat m ++ ['0', 'x']) ++ a.drop 2 = fmtNat n ++ b := by simpa using h
+  rcases List.append_eq_append_iff.mp h' with ⟨a', h1, _⟩ | ⟨c', h1, _⟩
+  · exact x_not_in_fmtNat n (by rw [h1]; simp)
+  · have := congrArg List.length h1
+    simp only [List.length_append, List.length_cons, List.length_nil] at this
+    omega
+
+/-- `%d%s` with a fixed-width address: the boundary is determined, also when the two claims were validated for chains
+of different address classes -/
+theorem nat_addr_split {k k' : AddrKind} {m n : Nat} {a b : Str} (ha : isExtAddr k a = true) (hb : isExtAddr k' b = true)
     (h : fmtNat m ++ a = fmtNat n ++ b) : m = n ∧ a = b := by
-  have := List.append_inj' h (isExtAddr_length ha hb)
-  exact ⟨fmtNat_inj this.1, this.2⟩
+  have same : a.length = b.length → m = n ∧ a = b := fun hl =>
+    have := List.append_inj' h hl
+    ⟨fmtNat_inj this.1, this.2⟩
+  cases k <;> cases k' <;> simp only [isExtAddr] at ha hb
+  · exact same (by rw [isEthAddr_length ha, isEthAddr_length hb])
+  · exact absurd h (nat_eth_ne_nat_tron ha hb)
+  · exact absurd hb (by simp)
+  · exact absurd h.symm (nat_eth_ne_nat_tron hb ha)
+  · exact same (by rw [isTronAddr_length ha, isTronAddr_length hb])
+  · exact absurd hb (by simp)
+  · exact absurd ha (by simp)
+  · exact absurd ha (by simp)
+  · exact absurd ha (by simp)
 
 /-! ## `/`-freeness, packaged for the path proofs -/
 
